@@ -245,7 +245,12 @@ class Parser:
             it = self.expr(nostruct=True)
             b = self.block()
             return ("for", pat, it, b), False
-        if v in ("loop", "const", "static", "fn", "struct", "impl", "use", "continue"):
+        if v == "use":
+            while self.peek() != ";":
+                self.eat()
+            self.eat(";")
+            return ("expr", ("tuple", [])), False
+        if v in ("loop", "const", "static", "fn", "struct", "impl", "continue"):
             raise Unparsed("statement `%s`" % v)
         if v in ("if", "match", "unsafe", "{"):
             # a block-like expression at the start of a statement IS the statement (Rust does not continue it with
@@ -352,6 +357,9 @@ class Parser:
         return self.range_(nostruct)
 
     def range_(self, ns):
+        if self.peek() == ".." and self.peek(1) in (")", "]", ","):
+            self.eat("..")
+            return ("rangefull",)
         a = self.oror(ns)
         if self.peek() in ("..", "..="):
             op = self.eat()
@@ -523,8 +531,9 @@ class Parser:
                     if self.peek() == ",": self.eat(",")
                 self.eat("|")
             return ("closure", params, self.expr())
-        if v == "move":
-            raise Unparsed("move closure")
+        if v == "move" and self.peek(1) in ("|", "||"):
+            self.eat("move")
+            return self.atom(ns)
         if k == "id":
             if v in ("while", "for", "loop", "let", "return", "break", "continue", "fn", "as", "mut", "ref"):
                 raise Unparsed("keyword `%s` in expression position" % v)
@@ -601,6 +610,32 @@ FUNCS = [
     ("dqHeapBuild", DQ_RS, "heap_build", "dq", [("arith", 326)]),
     ("dqFindMax", DQ_RS, "find_max", "dq", [("unwrap", 398)]),
     ("dqFindMin", DQ_RS, "find_min", "dq", []),
+    ("pqPush", PQ_RS, "push", "pq", [("getU", 210)]),
+    ("dqPush", DQ_RS, "push", "dq", [("getU", 331)]),
+    ("pqChangePriority", PQ_RS, "change_priority", "pq", []),
+    ("dqChangePriority", DQ_RS, "change_priority", "dq", []),
+    ("pqChangePriorityBy", PQ_RS, "change_priority_by", "pq", []),
+    ("dqChangePriorityBy", DQ_RS, "change_priority_by", "dq", []),
+    ("pqPushIncrease", PQ_RS, "push_increase", "pq", []),
+    ("pqPushDecrease", PQ_RS, "push_decrease", "pq", []),
+    ("dqPushIncrease", DQ_RS, "push_increase", "dq", []),
+    ("dqPushDecrease", DQ_RS, "push_decrease", "dq", []),
+    ("pqPopIf", PQ_RS, "pop_if", "pq", []),
+    ("dqPopMinIf", DQ_RS, "pop_min_if", "dq", []),
+    ("dqPopMaxIf", DQ_RS, "pop_max_if", "dq", []),
+    ("pqPeek", PQ_RS, "peek", "pq", []),
+    ("dqPeekMin", DQ_RS, "peek_min", "dq", [("getU", 327)]),
+    ("dqPeekMax", DQ_RS, "peek_max", "dq", [("getU", 328)]),
+    ("pqPeekMut", PQ_RS, "peek_mut", "pq", [("getU", 209)]),
+    ("dqPeekMinMut", DQ_RS, "peek_min_mut", "dq", [("getU", 329)]),
+    ("dqPeekMaxMut", DQ_RS, "peek_max_mut", "dq", [("getU", 330)]),
+    ("storeClear", STORE_RS, "clear", "store", []),
+    ("storeDrain", STORE_RS, "drain", "store", []),
+    ("storeRetainMut", STORE_RS, "retain_mut", "store", []),
+    ("storeAppend", STORE_RS, "append", "store", []),
+    ("storeSwapRemoveIf", STORE_RS, "swap_remove_if", "store", [("getU", 114), ("unwrap", 115)]),
+    ("storeChangePriority", STORE_RS, "change_priority", "store", [("getU", 116)]),
+    ("storeChangePriorityBy", STORE_RS, "change_priority_by", "store", [("getU", 117)]),
     ("pqPop", PQ_RS, "pop", "pq", []),
     ("pqRemove", PQ_RS, "remove", "pq", []),
     ("dqPopMin", DQ_RS, "pop_min", "dq", []),
@@ -612,15 +647,24 @@ ALL_FNIDS = ["storeSwap", "storePrioAt", "storeSwapRemove", "storeRemove",
              "pqHeapify", "pqBubbleUp", "pqUpHeapify", "pqHeapBuild",
              "dqHeapify", "dqHeapifyMin", "dqHeapifyMax", "dqBubbleUp", "dqBubbleUpMin", "dqBubbleUpMax",
              "dqUpHeapify", "dqHeapBuild", "dqFindMax",
-             "dqFindMin", "pqPop", "pqRemove", "dqPopMin", "dqPopMax", "dqRemove"]
+             "dqFindMin", "pqPop", "pqRemove", "dqPopMin", "dqPopMax", "dqRemove",
+             "storeClear", "storeDrain", "storeRetainMut", "storeAppend", "storeSwapRemoveIf", "storeChangePriority",
+             "storeChangePriorityBy",
+             "pqPush", "dqPush", "pqChangePriority", "dqChangePriority", "pqChangePriorityBy", "dqChangePriorityBy",
+             "pqPushIncrease", "pqPushDecrease", "dqPushIncrease", "dqPushDecrease",
+             "pqPopIf", "dqPopMinIf", "dqPopMaxIf", "pqPeek", "dqPeekMin", "dqPeekMax", "pqPeekMut", "dqPeekMinMut",
+             "dqPeekMaxMut",
+             "storeFromVec", "storeFromIter", "storeExtend", "storeVisitSeq",
+             "pqExtend", "dqExtend", "pqAppend", "dqAppend", "pqRetainMut", "dqRetainMut", "pqRetain", "dqRetain"]
 HOLE_METHODS = ["new", "index_at", "move_from", "drop"]
 # methods of the queue (`self.m(..)`) / of the store (`self.store.m(..)`) that are calls of translated functions
 QUEUE_CALLS = {"pq": {"heapify": "pqHeapify", "bubble_up": "pqBubbleUp", "up_heapify": "pqUpHeapify",
-                      "heap_build": "pqHeapBuild"},
+                      "heap_build": "pqHeapBuild", "push": "pqPush"},
                "dq": {"heapify": "dqHeapify", "heapify_min": "dqHeapifyMin", "heapify_max": "dqHeapifyMax",
                       "bubble_up": "dqBubbleUp", "up_heapify": "dqUpHeapify", "heap_build": "dqHeapBuild",
-                      "find_max": "dqFindMax", "find_min": "dqFindMin"}}
-STORE_CALLS = {"swap": "storeSwap", "swap_remove": "storeSwapRemove", "remove": "storeRemove"}
+                      "find_max": "dqFindMax", "find_min": "dqFindMin", "push": "dqPush"}}
+STORE_CALLS = {"swap": "storeSwap", "swap_remove": "storeSwapRemove", "remove": "storeRemove",
+               "swap_remove_if": "storeSwapRemoveIf"}
 # return kinds of the callable functions: N = usize/Position/Index, U = (), P = &P
 # associated functions taking `hole: &mut Hole` (called as `Self::f(map, &mut hole, priority)`): in the IR the hole is passed
 # as its two `usize` fields and the new `hole.position` is returned
@@ -628,7 +672,7 @@ HOLE_FNS = {"dq": {"bubble_up_min": "dqBubbleUpMin", "bubble_up_max": "dqBubbleU
 RET_KIND = {"storeSwap": "U", "storePrioAt": "P", "pqHeapify": "U", "pqBubbleUp": "N", "pqUpHeapify": "U",
             "pqHeapBuild": "U", "dqHeapify": "U", "dqHeapifyMin": "U", "dqHeapifyMax": "U", "dqBubbleUp": "N",
             "dqUpHeapify": "U", "dqHeapBuild": "U", "storeSwapRemove": "E", "storeRemove": "R",
-            "dqFindMax": "ON", "dqFindMin": "ON"}
+            "dqFindMax": "ON", "dqFindMin": "ON", "storeSwapRemoveIf": "E", "pqPush": "OP", "dqPush": "OP"}
 
 
 # ----------------------------------------------------------------------------------------------------
@@ -658,6 +702,8 @@ class Lower:
         self.loops = []                         # (name, cond, body)
         self.live_holes = []                    # by-value holes of the function's top scope
         self.byref_hole = None                  # register of `hole.position` of a `&mut Hole` parameter
+        self.other_reg = None                   # value register of an `other: &mut Self` parameter
+        self.ret_kind = None
 
     # ---- bookkeeping
     def site(self, kind):
@@ -731,8 +777,8 @@ class Lower:
                 return b[0]
             if b and b[0] == "mutref":
                 return "N"
-            if b and b[0] == "V":
-                return "V"
+            if b and b[0] in ("V", "I", "slotI", "slotP"):
+                return b[0]
             return None
         if self.is_mapprio(e) is not None:
             return "P"
@@ -765,6 +811,9 @@ class Lower:
                 return self.n(e[1])                                   # newtype erasure
             if e[2] == "size" and self.place(e[1]) == "STORE":
                 return ("len",)
+            ob = strip(e[1])
+            if e[2] == "size" and ob[0] == "path" and len(ob[1]) == 1 and (self.lookup(ob[1][0]) or ("",))[0] == "other":
+                return ("otherSize", self.lookup(ob[1][0])[1])
             raise Unparsed("field `.%s`" % e[2])
         if t == "call":
             f = e[1]
@@ -793,9 +842,15 @@ class Lower:
             p = self.place(recv)
             if name == "len" and not args and p in ("QUEUE", "STORE"):
                 return ("len",)
+            if name == "len" and not args and p == "MAP":
+                return ("mapLen",)
             if name == "get_unchecked" and len(args) == 1 and p in ("HEAP", "QP"):
                 a = self.n(args[0])
                 return ("heapGetU" if p == "HEAP" else "qpGetU", self.site("getU"), a)
+            rb = strip(recv)
+            if name == "index" and not args and rb[0] == "path" and len(rb[1]) == 1 \
+                    and (self.lookup(rb[1][0]) or ("",))[0] == "occ":
+                return ("var", self.lookup(rb[1][0])[1])
             h = self.hole_of(recv)
             if h is not None and name == "index_at":
                 return self.inline_hole_method(h, name, args, "N")
@@ -804,7 +859,7 @@ class Lower:
 
     def pure_n(self, x):
         """an IR usize expression that cannot fault"""
-        return x[0] in ("lit", "var", "len") or (x[0] in ("left", "right", "level") and self.pure_n(x[1])) \
+        return x[0] in ("lit", "var", "len", "mapLen", "otherSize", "entriesLen") or (x[0] in ("left", "right", "level") and self.pure_n(x[1])) \
             or (x[0] in ("add", "mul", "div", "mod") and self.pure_n(x[1]) and self.pure_n(x[2]))
 
     # ---- priority expressions
@@ -842,6 +897,39 @@ class Lower:
                 x = self.n(e[2]); y = self.n(e[3])
                 return ({"<": "ltN", ">": "gtN", "<=": "leN", ">=": "geN", "==": "eqN", "!=": "neN"}[e[1]], x, y)
             raise Unparsed("comparison between a priority and a non-priority")
+        if e[0] == "call" and e[1][0] == "path" and len(e[1][1]) == 1 and len(e[2]) == 2:
+            fb = self.lookup(e[1][1][0])
+            a0, a1 = strip(e[2][0]), strip(e[2][1])
+            if fb and fb[0] == "V" and a0[0] == "path" and a1[0] == "path" and len(a0[1]) == 1 and len(a1[1]) == 1:
+                b0, b1 = self.lookup(a0[1][0]), self.lookup(a1[1][0])
+                if b0 and b1 and b0[0] == "slotI" and b1[0] == "slotP" and b0[1] == b1[1]:
+                    return ("predAt", fb[1], b0[1])
+            raise Unparsed("call of a closure that is not `f(i, p)` on an entry `(i, p)` of the map")
+        if e[0] == "mcall" and e[2] == "map_or" and len(e[3]) == 2 and strip(e[3][0]) == ("path", ["true"]) \
+                and e[3][1][0] == "closure":
+            g, clo = strip(e[1]), e[3][1]
+            if g[0] == "mcall" and g[2] == "get_priority" and len(g[3]) == 1 and self.place(g[1]) == "QUEUE" \
+                    and len(clo[1]) == 1 and clo[1][0][0] == "pid":
+                a = strip(g[3][0])
+                ib = self.lookup(a[1][0]) if a[0] == "path" and len(a[1]) == 1 else None
+                c = strip(clo[2])
+                if ib and ib[0] == "I" and c[0] == "bin" and c[1] in ("<", ">") and c[3][0] == "deref" \
+                        and strip(c[3]) == ("path", [clo[1][0][1]]) and self.kind(c[2]) == "P":
+                    return ("prioMapOrGt" if c[1] == ">" else "prioMapOrLt", ib[1], self.p(c[2]))
+            raise Unparsed("`map_or` that is not `self.get_priority(&item).map_or(true, |p| priority <> *p)`")
+        if e[0] == "unop" and e[1] == "!":
+            return ("not", self.b(e[2]))
+        if e[0] == "mcall" and e[2] == "contains_key" and len(e[3]) == 1 and self.place(e[1]) == "MAP":
+            a = strip(e[3][0])
+            ib = self.lookup(a[1][0]) if a[0] == "path" and len(a[1]) == 1 else None
+            if ib and ib[0] == "I":
+                return ("containsKey", ib[1])
+            raise Unparsed("`contains_key` of something that is not an item variable")
+        if e[0] == "mcall" and e[2] == "is_some" and not e[3]:
+            r = strip(e[1])
+            if r[0] == "path" and len(r[1]) == 1 and (self.lookup(r[1][0]) or ("",))[0] == "V":
+                return ("isSomeV", self.lookup(r[1][0])[1])
+            raise Unparsed("`is_some()` of something that is not an optional priority variable")
         if e[0] == "mcall" and e[2] == "is_empty" and not e[3] and self.place(e[1]) in ("QUEUE", "STORE"):
             return ("eqN", ("len",), ("lit", 0))
         raise Unparsed("boolean expression of form `%s`" % (e[1] if e[0] == "bin" else e[0]))
@@ -912,6 +1000,20 @@ class Lower:
             return self.block_stmts(body, None)
         finally:
             self.scopes = saved
+
+    def split_args(self, args):
+        """arguments of a call of a translated function: usize / priority / value (item, closure) arguments"""
+        ns, ps, vs = [], [], []
+        for a in args:
+            k = self.kind(a)
+            if k == "P":
+                ps.append(self.p(a))
+            elif k in ("V", "I"):
+                a0 = strip(a)
+                vs.append(self.lookup(a0[1][0])[1])
+            else:
+                ns.append(self.n(a))
+        return ns, ps, vs
 
     # ---- recognised idioms
     def minmax_idiom(self, e):
@@ -1027,7 +1129,7 @@ class Lower:
                 out += self.stmt(s)
             if blk[2] is not None:
                 out += self.tail(blk[2], tail_ret)
-            elif tail_ret in ("N", "P", "E", "R", "ON"):
+            elif tail_ret is not None:
                 if not (blk[1] and blk[1][-1][0] == "return"):
                     raise Unparsed("a value is expected at the end of the block")
             return out
@@ -1054,6 +1156,35 @@ class Lower:
             if self.live_holes:
                 raise Unparsed("priority result with a live hole")
             return [("retP", self.p(e))]
+        if tail_ret == "OPN!":
+            t0 = strip(e)
+            if t0[0] == "tuple" and len(t0[1]) == 2 and self.kind(t0[1][0]) == "P":
+                x = self.p(t0[1][0]); y = self.n(t0[1][1])
+                return [("retSomePN", x, y)]
+            raise Unparsed("closure result that is not `(priority, position)`")
+        if tail_ret == "ON!":
+            return [("retSomeN", self.n(e))]
+        if tail_ret == "D":
+            t0 = strip(e)
+            if t0[0] == "struct" and t0[1] == ["Drain"] and len(t0[2]) == 1 and t0[2][0][0] == "iter":
+                d = strip(t0[2][0][1])
+                if d[0] == "mcall" and d[2] == "drain" and d[3] == [("rangefull",)] and self.place(d[1]) == "MAP":
+                    return [("retMapDrain",)]
+            raise Unparsed("result that is not `Drain { iter: self.map.drain(..) }`")
+        if tail_ret in ("OPN", "ON"):
+            t0 = strip(e)
+            if t0[0] == "mcall" and t0[2] == "map" and len(t0[3]) == 1 and t0[3][0][0] == "closure":
+                g, clo = strip(t0[1]), t0[3][0]
+                if g[0] == "mcall" and g[2] == "get_full_mut" and len(g[3]) == 1 and self.place(g[1]) == "MAP":
+                    return self.get_full_mut(g, clo, tail_ret)
+        if tail_ret == "OPN":
+            t0 = strip(e)
+            if t0 == ("path", ["None"]):
+                return [("retNonePN",)]
+            if t0[0] == "tuple" and len(t0[1]) == 2 and self.kind(t0[1][0]) == "P":
+                x = self.p(t0[1][0]); y = self.n(t0[1][1])
+                return [("retSomePN", x, y)]
+            raise Unparsed("result that is not an optional (priority, position)")
         if tail_ret == "ON":
             t0 = strip(e)
             if self.live_holes:
@@ -1068,16 +1199,134 @@ class Lower:
                     return [("lastMaxByPos", v, self.site("unwrap"), cands), ("retSomeN", ("var", v))]
                 return [("retSomeN", self.n(a))]
             raise Unparsed("optional result that is neither `None` nor `Some(e)`")
+        if tail_ret == "OP" and not self.live_holes:
+            t0 = strip(e)
+            if t0 == ("path", ["None"]):
+                return [("retNoneP",)]
+            if t0[0] == "call" and t0[1] == ("path", ["Some"]) and len(t0[2]) == 1 and self.kind(t0[2][0]) == "P":
+                return [("retSomeP", self.p(t0[2][0]))]
+            if t0[0] == "mcall" and self.place(t0[1]) == "QUEUE" \
+                    and RET_KIND.get(QUEUE_CALLS.get(self.owner, {}).get(t0[2])) == "OP":
+                ns, ps, vs = self.split_args(t0[3])
+                v = self.fresh("result", "V")
+                return [("callX", v, QUEUE_CALLS[self.owner][t0[2]], ns, ps, vs), ("retV", v)]
+            if t0[0] == "mcall" and t0[2] == "map" and len(t0[3]) == 1 and t0[3][0][0] == "closure":
+                g, clo = strip(t0[1]), t0[3][0]
+                if g[0] == "mcall" and self.place(g[1]) == "STORE" and g[2] == "change_priority" and len(g[3]) == 2:
+                    k = strip(g[3][0])
+                    kb = self.lookup(k[1][0]) if k[0] == "path" and len(k[1]) == 1 else None
+                    ps_ = clo[1]
+                    if kb and kb[0] == "K" and self.kind(g[3][1]) == "P" and len(ps_) == 1 and ps_[0][0] == "ptuple" \
+                            and len(ps_[0][1]) == 2 and all(q[0] == "pid" for q in ps_[0][1]) and clo[2][0] == "block" \
+                            and clo[2][2] is not None and strip(clo[2][2]) == ("path", [ps_[0][1][0][1]]):
+                        x = self.p(g[3][1])
+                        self.scopes.append({})
+                        try:
+                            v = self.fresh(ps_[0][1][1][1], "N")
+                            self.bind(ps_[0][1][1][1], ("N", v))
+                            self.scopes.append({})
+                            try:
+                                code = []
+                                for st in clo[2][1]:
+                                    code += self.stmt(st)
+                            finally:
+                                self.scopes.pop()
+                        finally:
+                            self.scopes.pop()
+                        return [("mapChanged", kb[1], x, v, code)]
+                raise Unparsed("`map` that is not `self.store.change_priority(item, p).map(|(r, pos)| { ..; r })`")
+            raise Unparsed("optional priority result of unknown form")
+        if tail_ret == "B" and not self.live_holes:
+            t0 = strip(e)
+            if t0[0] == "mcall" and t0[2] == "is_some" and not t0[3]:
+                m = strip(t0[1])
+                if m[0] == "mcall" and m[2] == "map" and len(m[3]) == 1 and m[3][0][0] == "closure":
+                    g, clo = strip(m[1]), m[3][0]
+                    if g[0] == "mcall" and self.place(g[1]) == "STORE" and g[2] == "change_priority_by" and len(g[3]) == 2:
+                        k, f = strip(g[3][0]), strip(g[3][1])
+                        kb = self.lookup(k[1][0]) if k[0] == "path" and len(k[1]) == 1 else None
+                        fb = self.lookup(f[1][0]) if f[0] == "path" and len(f[1]) == 1 else None
+                        ps_ = clo[1]
+                        if kb and kb[0] == "K" and fb and fb[0] == "V" and len(ps_) == 1 and ps_[0][0] == "pid" \
+                                and clo[2][0] == "block" and clo[2][2] is None:
+                            self.scopes.append({})
+                            try:
+                                v = self.fresh(ps_[0][1], "N")
+                                self.bind(ps_[0][1], ("N", v))
+                                self.scopes.append({})
+                                try:
+                                    code = []
+                                    for st in clo[2][1]:
+                                        code += self.stmt(st)
+                                finally:
+                                    self.scopes.pop()
+                            finally:
+                                self.scopes.pop()
+                            return [("mapChangedBy", kb[1], fb[1], v, code)]
+            raise Unparsed("boolean result that is not `self.store.change_priority_by(..).map(|pos| {..}).is_some()`")
+        if tail_ret == "EM" and not self.live_holes:
+            t0 = strip(e)
+            if t0 == ("path", ["None"]):
+                return [("retNoneSlot",)]
+            if t0[0] == "mcall" and t0[2] == "map" and len(t0[3]) == 1 and t0[3][0][0] == "closure":
+                clo = t0[3][0]
+                okc = (len(clo[1]) == 1 and clo[1][0][0] == "ptuple" and len(clo[1][0][1]) == 2
+                       and all(q[0] == "pid" for q in clo[1][0][1]))
+                if okc:
+                    kn, vn = clo[1][0][1][0][1], clo[1][0][1][1][1]
+                    r = strip(clo[2])
+                    okc = (r[0] == "tuple" and len(r[1]) == 2 and strip(r[1][0]) == ("path", [kn])
+                           and strip(r[1][1]) == ("path", [vn]))
+                if not okc:
+                    raise Unparsed("closure that is not `|(k, v)| (k, &*v)`")
+                return self.tail(t0[1], "EM0")
+            raise Unparsed("mutable-entry result of unknown form")
+        if tail_ret == "EM0" and not self.live_holes:
+            t0 = strip(e)
+            if t0[0] == "mcall" and t0[2] == "get_index_mut2" and len(t0[3]) == 1 and self.place(t0[1]) == "MAP":
+                return [("retMapGetIndexMut2", self.n(t0[3][0]))]
+            if t0[0] == "mcall" and t0[2] == "and_then" and len(t0[3]) == 1 and t0[3][0][0] == "closure":
+                g, clo = strip(t0[1]), t0[3][0]
+                if g[0] == "mcall" and self.place(g[1]) == "QUEUE" and not g[3] \
+                        and RET_KIND.get(QUEUE_CALLS.get(self.owner, {}).get(g[2])) == "ON" \
+                        and len(clo[1]) == 1 and clo[1][0][0] == "pid" and clo[2][0] == "block":
+                    self.scopes.append({})
+                    try:
+                        v = self.fresh(clo[1][0][1], "N")
+                        self.bind(clo[1][0][1], ("N", v))
+                        body = self.block_stmts(clo[2], "EM0")
+                    finally:
+                        self.scopes.pop()
+                    return [("optCallN", v, QUEUE_CALLS[self.owner][g[2]], [], body, [("retNoneSlot",)])]
+            raise Unparsed("mutable-entry result of unknown form")
         if tail_ret == "E" and not self.live_holes:
             t0 = strip(e)
             if t0 == ("path", ["None"]):
                 return [("retNoneE",)]
+            if t0[0] == "mcall" and t0[2] == "get_index" and len(t0[3]) == 1 and self.place(t0[1]) == "MAP":
+                return [("retMapGetIndex", self.n(t0[3][0]))]
+            if t0[0] == "mcall" and t0[2] == "and_then" and len(t0[3]) == 1 and t0[3][0][0] == "closure":
+                g, clo = strip(t0[1]), t0[3][0]
+                if g[0] == "mcall" and g[2] == "first" and not g[3] and self.place(g[1]) == "HEAP":
+                    if len(clo[1]) == 1 and clo[1][0][0] == "pid":
+                        self.scopes.append({})
+                        try:
+                            v = self.fresh(clo[1][0][1], "N")
+                            self.bind(clo[1][0][1], ("N", v))
+                            body = self.tail(clo[2], "E") if clo[2][0] != "block" else self.block_stmts(clo[2], "E")
+                        finally:
+                            self.scopes.pop()
+                        return [("ifHeapGet", v, ("lit", 0), body, [("retNoneE",)])]
+                    raise Unparsed("closure of `heap.first().and_then`")
             if t0[0] == "path" and len(t0[1]) == 1 and (self.lookup(t0[1][0]) or ("",))[0] == "V":
                 return [("retV", self.lookup(t0[1][0])[1])]
             if t0[0] == "mcall" and self.place(t0[1]) == "STORE" and t0[2] in STORE_CALLS \
                     and RET_KIND.get(STORE_CALLS[t0[2]]) == "E":
                 v = self.fresh("result", "V")
-                return [("callV", v, STORE_CALLS[t0[2]], [self.n(a) for a in t0[3]]), ("retV", v)]
+                ns, ps, vs = self.split_args(t0[3])
+                if ps or vs:
+                    return [("callX", v, STORE_CALLS[t0[2]], ns, ps, vs), ("retV", v)]
+                return [("callV", v, STORE_CALLS[t0[2]], ns), ("retV", v)]
             if t0[0] == "mcall" and t0[2] == "and_then" and len(t0[3]) == 1 and t0[3][0][0] == "closure":
                 g, clo = strip(t0[1]), t0[3][0]
                 if g[0] == "mcall" and self.place(g[1]) == "QUEUE" and not g[3] \
@@ -1127,6 +1376,27 @@ class Lower:
         if tail_ret == "R":
             return self.remove_full(strip(e))
         raise Unparsed("tail expression")
+
+    def get_full_mut(self, g, clo, tail_ret):
+        """`map.get_full_mut(key).map(|(index, _, p)| { .. })` as the function's result"""
+        k = strip(g[3][0])
+        kb = self.lookup(k[1][0]) if k[0] == "path" and len(k[1]) == 1 else None
+        if not kb or kb[0] != "K":
+            raise Unparsed("`get_full_mut` of something that is not the key parameter")
+        ps = clo[1]
+        if not (len(ps) == 1 and ps[0][0] == "ptuple" and len(ps[0][1]) == 3 and ps[0][1][0][0] == "pid"
+                and ps[0][1][1][0] == "pwild" and ps[0][1][2][0] == "pid" and clo[2][0] == "block"):
+            raise Unparsed("closure of `get_full_mut(..).map` is not `|(index, _, p)| { .. }`")
+        self.scopes.append({})
+        try:
+            vi = self.fresh(ps[0][1][0][1], "N")
+            self.bind(ps[0][1][0][1], ("N", vi))
+            self.bind(ps[0][1][2][1], ("slotP", vi))
+            # inside the closure its value is what `Some(..)` of the function's result holds
+            body = self.block_stmts(clo[2], {"OPN": "OPN!", "ON": "ON!"}[tail_ret])
+        finally:
+            self.scopes.pop()
+        return [("getFullMutThen", kb[1], vi, body, [("retNonePN",)] if tail_ret == "OPN" else [("retNone",)])]
 
     def remove_full(self, e):
         """`self.map.swap_remove_full(key).map(|(i, item, priority)| { ...; (item, priority, res) })`"""
@@ -1185,6 +1455,26 @@ class Lower:
             if len(got) != 4:
                 raise Unparsed("match on a pair of booleans without all four arms")
             return [("match2", c1, c2, got[(True, True)], got[(True, False)], got[(False, True)], got[(False, False)])]
+        if scrut[0] == "mcall" and scrut[2] == "entry" and len(scrut[3]) == 1 and self.place(scrut[1]) == "MAP":
+            a = strip(scrut[3][0])
+            ib = self.lookup(a[1][0]) if a[0] == "path" and len(a[1]) == 1 else None
+            if not ib or ib[0] != "I":
+                raise Unparsed("`map.entry` of something that is not an item variable")
+            got = {}
+            eidx = self.fresh("entry.index", "N")
+            for pat, body in arms:
+                if not (pat[0] == "pctor" and pat[1] in (["Occupied"], ["Vacant"]) and len(pat[2]) == 1
+                        and pat[2][0][0] == "pid") or pat[1][0] in got:
+                    raise Unparsed("arms of a match on `map.entry(..)` are not `Occupied(e)` / `Vacant(e)`")
+                self.scopes.append({})
+                try:
+                    self.bind(pat[2][0][1], ("occ", eidx) if pat[1] == ["Occupied"] else ("vac", ib[1]))
+                    got[pat[1][0]] = self.branch(body if body[0] in ("block", "if") else ("block", [], body), tail_ret)
+                finally:
+                    self.scopes.pop()
+            if len(got) != 2:
+                raise Unparsed("match on `map.entry(..)` without both arms")
+            return [("entryMatch", ib[1], eidx, got["Occupied"], got["Vacant"])]
         # match n { 0 => .., 1 => .., _ => .. } on a fault-free usize
         x = self.n(scrut)
         if not self.pure_n(x):
@@ -1232,10 +1522,28 @@ class Lower:
             return code
         if declare and es[0] == "mcall" and self.place(es[1]) == "STORE" and es[2] in STORE_CALLS \
                 and RET_KIND.get(STORE_CALLS[es[2]]) == "E":
-            args = [self.n(a) for a in es[3]]
+            ns, ps, vs = self.split_args(es[3])
             v = self.fresh(name, "V")
             self.bind(name, ("V", v))
-            return [("callV", v, STORE_CALLS[es[2]], args)]
+            if ps or vs:
+                return [("callX", v, STORE_CALLS[es[2]], ns, ps, vs)]
+            return [("callV", v, STORE_CALLS[es[2]], ns)]
+        if declare and es == ("path", ["None"]):
+            v = self.fresh(name, "V")
+            self.bind(name, ("V", v))
+            return [("setVNoneP", v)]
+        if (not declare) and (self.lookup(name) or ("",))[0] == "V":
+            # `o = Some(replace(e.get_mut(), p))` for an occupied entry `e`
+            if es[0] == "call" and es[1] == ("path", ["Some"]) and len(es[2]) == 1:
+                r = strip(es[2][0])
+                if r[0] == "call" and r[1] == ("path", ["replace"]) and len(r[2]) == 2:
+                    g = strip(r[2][0])
+                    if g[0] == "mcall" and g[2] == "get_mut" and not g[3]:
+                        eb = strip(g[1])
+                        ob = self.lookup(eb[1][0]) if eb[0] == "path" and len(eb[1]) == 1 else None
+                        if ob and ob[0] == "occ":
+                            return [("replaceSlotPrio", self.lookup(name)[1], ("var", ob[1]), self.p(r[2][1]))]
+            raise Unparsed("assignment to an optional priority that is not `Some(replace(e.get_mut(), p))`")
         mm = self.minmax_idiom(e)
         if mm is not None:
             sp = self.site("unwrap"); su = self.site("unwrap")
@@ -1284,6 +1592,17 @@ class Lower:
             pat, e = s[1], s[2]
             if pat[0] == "pid":
                 return self.set_var(pat[1], e, True)
+            if pat[0] == "ptuple" and len(pat[1]) == 2 and all(q[0] == "pid" for q in pat[1]):
+                u = strip(e)
+                if u[0] == "mcall" and u[2] == "unwrap" and not u[3]:
+                    g = strip(u[1])
+                    if g[0] == "mcall" and g[2] == "get_index_mut2" and len(g[3]) == 1 and self.place(g[1]) == "MAP":
+                        a = self.n(g[3][0])
+                        iv = self.fresh(pat[1][0][1] + "," + pat[1][1][1] + "@index", "N")
+                        site = self.site("unwrap")
+                        self.bind(pat[1][0][1], ("slotI", iv))
+                        self.bind(pat[1][1][1], ("slotP", iv))
+                        return [("setN", iv, a), ("entryMut2", site, ("var", iv))]
             if pat[0] == "ptuple":
                 es = strip(e)
                 if es[0] != "tuple" or len(es[1]) != len(pat[1]) or any(q[0] != "pid" for q in pat[1]):
@@ -1310,6 +1629,14 @@ class Lower:
         if t == "assign":
             lhs, op, rhs = s[1], s[2], s[3]
             l0 = strip(lhs)
+            if op == "+=":
+                r = strip(rhs)
+                if l0[0] == "field" and l0[2] == "size" and self.place(l0[1]) == "STORE" and r == ("num", 1):
+                    return [("sizeInc",)]
+                if l0[0] == "path" and len(l0[1]) == 1 and (self.lookup(l0[1][0]) or ("",))[0] == "N":
+                    v = self.lookup(l0[1][0])[1]
+                    return [("setN", v, ("add", ("var", v), self.n(rhs)))]
+                raise Unparsed("`+=`")
             if op == "-=":
                 r = strip(rhs)
                 if l0[0] == "field" and l0[2] == "size" and self.place(l0[1]) == "STORE" and r == ("num", 1):
@@ -1335,6 +1662,19 @@ class Lower:
                         return [("heapSetU" if b[1] == "HEAP" else "qpSetU", self.site("setU"), ("var", b[2]), x),
                                 ("setN", b[3], x)]
                 raise Unparsed("assignment through `*`")
+            if l0[0] == "field" and self.place(l0[1]) == "STORE" and l0[2] == "size":
+                return [("sizeSet", self.n(rhs))]
+            if l0[0] == "field" and self.place(l0[1]) == "STORE" and l0[2] in ("heap", "qp"):
+                r = strip(rhs)
+                if r[0] == "mcall" and r[2] == "collect" and not r[3]:
+                    m = strip(r[1])
+                    if m[0] == "mcall" and m[2] == "map" and len(m[3]) == 1 \
+                            and m[3][0] == ("path", ["Index" if l0[2] == "heap" else "Position"]):
+                        rg = strip(m[1])
+                        if rg[0] == "range" and rg[1] == ".." and strip(rg[2]) == ("num", 0):
+                            return [("heapSetRange" if l0[2] == "heap" else "qpSetRange", self.n(rg[3]))]
+                raise Unparsed("assignment to `self.%s` that is not `(0..e).map(%s).collect()`"
+                               % (l0[2], "Index" if l0[2] == "heap" else "Position"))
             if l0[0] == "path" and len(l0[1]) == 1:
                 return self.set_var(l0[1][0], rhs, False)
             if l0[0] == "field":
@@ -1346,7 +1686,14 @@ class Lower:
             if self.live_holes or self.byref_hole is not None:
                 raise Unparsed("`return` while a hole is live")
             if s[1] is None:
+                if self.other_reg is not None:
+                    return [("retV", self.other_reg)]
                 return [("ret",)]
+            r0 = strip(s[1])
+            if r0[0] == "path" and len(r0[1]) == 1 and (self.lookup(r0[1][0]) or ("",))[0] == "V":
+                return [("retV", self.lookup(r0[1][0])[1])]
+            if r0 == ("path", ["None"]) and self.ret_kind in ("EM", "E", "OP"):
+                return [({"EM": "retNoneSlot", "E": "retNoneE", "OP": "retNoneP"}[self.ret_kind],)]
             raise Unparsed("`return e`")
         if t == "break":
             return [("brk",)]
@@ -1358,6 +1705,27 @@ class Lower:
             return [("whileRef", name)]
         if t == "for":
             pat, it, blk = s[1], strip(s[2]), s[3]
+            if pat[0] == "ptuple" and len(pat[1]) == 2 and all(q[0] == "pid" for q in pat[1]):
+                pre, src = [], None
+                if it[0] == "mcall" and it[2] == "drain" and not it[3]:
+                    ob = strip(it[1])
+                    if ob[0] == "path" and len(ob[1]) == 1 and (self.lookup(ob[1][0]) or ("",))[0] == "other":
+                        src = self.fresh("drained", "V")
+                        pre = [("drainOther", self.lookup(ob[1][0])[1], src)]
+                elif it[0] == "path" and len(it[1]) == 1 and (self.lookup(it[1][0]) or ("",))[0] == "S":
+                    src = self.lookup(it[1][0])[1]
+                if src is None:
+                    raise Unparsed("`for (k, v) in e` over something that is not `other.drain()` or a sequence parameter")
+                self.scopes.append({})
+                try:
+                    iv = self.fresh(pat[1][0][1], "I")
+                    pv = self.fresh(pat[1][1][1], "P")
+                    self.bind(pat[1][0][1], ("I", iv))
+                    self.bind(pat[1][1][1], ("P", pv))
+                    body = self.block_stmts(blk, None)
+                finally:
+                    self.scopes.pop()
+                return pre + [("forEntries", src, iv, pv, body)]
             if pat[0] != "pid" or it[0] != "mcall" or it[2] != "rev" or it[3]:
                 raise Unparsed("`for` loop that is not `for i in (0..=e).rev()`")
             r = strip(it[1])
@@ -1420,18 +1788,68 @@ class Lower:
                 if p == "QUEUE" and name in QUEUE_CALLS.get(self.owner, {}) and \
                         RET_KIND.get(QUEUE_CALLS[self.owner][name]) == "U":
                     return [("call", QUEUE_CALLS[self.owner][name], [self.n(a) for a in args], [])]
+                if p == "QUEUE" and name in QUEUE_CALLS.get(self.owner, {}) and \
+                        RET_KIND.get(QUEUE_CALLS[self.owner][name]) == "N":
+                    xs = [self.n(a) for a in args]
+                    return [("callN", self.fresh("_", "N"), QUEUE_CALLS[self.owner][name], xs, [])]
                 if p in ("HEAP", "QP") and name == "swap" and len(args) == 2:
                     a = self.n(args[0]); b = self.n(args[1])
                     return [("heapSwap" if p == "HEAP" else "qpSwap", self.site("swapC"), a, b)]
+                if p in ("HEAP", "QP") and name == "push" and len(args) == 1:
+                    return [("heapPush" if p == "HEAP" else "qpPush", self.n(args[0]))]
+                if p == "MAP" and name == "insert" and len(args) == 2:
+                    a = strip(args[0])
+                    ib = self.lookup(a[1][0]) if a[0] == "path" and len(a[1]) == 1 else None
+                    if ib and ib[0] == "I" and self.kind(args[1]) == "P":
+                        return [("mapInsert", ib[1], self.p(args[1]))]
+                    raise Unparsed("`map.insert` that is not `insert(item, priority)`")
+                if p in ("HEAP", "QP", "MAP") and name == "clear" and not args:
+                    return [({"HEAP": "heapClear", "QP": "qpClear", "MAP": "mapClear"}[p],)]
+                if p == "MAP" and name == "retain2" and len(args) == 1:
+                    a = strip(args[0])
+                    fb = self.lookup(a[1][0]) if a[0] == "path" and len(a[1]) == 1 else None
+                    if fb and fb[0] == "V":
+                        return [("mapRetain2", fb[1])]
+                    raise Unparsed("`retain2` of something that is not a closure parameter")
                 if p in ("HEAP", "QP") and name == "swap_remove" and len(args) == 1:
                     a = self.n(args[0])
                     site = self.site("swapRemoveC")
                     v = self.fresh("_", "N")
                     return [("heapSwapRemove" if p == "HEAP" else "qpSwapRemove", v, site, a)]
+                rb = strip(recv)
+                if name == "insert" and len(args) == 1 and rb[0] == "path" and len(rb[1]) == 1 \
+                        and (self.lookup(rb[1][0]) or ("",))[0] == "vac":
+                    return [("vacantInsert", self.lookup(rb[1][0])[1], self.p(args[0]))]
                 h = self.hole_of(recv)
                 if h is not None and name == "move_from":
                     return self.inline_hole_method(h, name, args, "stmt")
                 raise Unparsed("method call `.%s(..)` as a statement" % name)
+            if e0[0] == "call" and e0[1][0] == "path" and len(e0[1][1]) == 1:
+                fname, cargs = e0[1][1][0], e0[2]
+                fb = self.lookup(fname)
+                pass
+            if e0[0] == "call" and e0[1] == ("path", ["std", "mem", "swap"]) and len(e0[2]) == 2:
+                a0, a1 = strip(e0[2][0]), strip(e0[2][1])
+                if a0 == ("path", ["self"]) and self.lookup("self") == ("place", "STORE") and a1[0] == "path" \
+                        and len(a1[1]) == 1 and (self.lookup(a1[1][0]) or ("",))[0] == "other":
+                    return [("swapSelfOther", self.lookup(a1[1][0])[1])]
+                raise Unparsed("`std::mem::swap` that is not `swap(self, other)`")
+            if e0[0] == "call" and e0[1][0] == "path" and len(e0[1][1]) == 1:
+                fname, cargs = e0[1][1][0], e0[2]
+                fb = self.lookup(fname)
+                if fname == "swap" and fb is None and len(cargs) == 2:
+                    a0, a1 = strip(cargs[0]), strip(cargs[1])
+                    b0 = self.lookup(a0[1][0]) if a0[0] == "path" and len(a0[1]) == 1 else None
+                    b1 = self.lookup(a1[1][0]) if a1[0] == "path" and len(a1[1]) == 1 else None
+                    if b0 and b1 and b0[0] == "slotP" and b1[0] == "P" and cargs[1][0] == "ref":
+                        return [("swapSlotPrio", ("var", b0[1]), b1[1])]
+                    raise Unparsed("`swap` that is not `swap(p, &mut local)` on a priority slot of the map")
+                if fb and fb[0] == "V" and len(cargs) == 1:
+                    a0 = strip(cargs[0])
+                    b0 = self.lookup(a0[1][0]) if a0[0] == "path" and len(a0[1]) == 1 else None
+                    if b0 and b0[0] == "slotP":
+                        return [("applySetterSlot", fb[1], ("var", b0[1]))]
+                    raise Unparsed("call of a closure that is not `setter(p)` on a priority slot of the map")
             raise Unparsed("expression statement of form `%s`" % e0[0])
         raise Unparsed("statement `%s`" % t)
 
@@ -1445,8 +1863,20 @@ def ret_kind(rtoks):
         return "N"
     if txt == "-> & P":
         return "P"
+    if txt == "-> Drain < '_ , I , P >" or txt == "-> Drain < I , P >" or txt == "-> Drain < , I , P >":
+        return "D"
+    if txt == "-> Option < ( P , Position ) >":
+        return "OPN"
     if txt == "-> Option < Position >":
         return "ON"
+    if txt == "-> Option < P >":
+        return "OP"
+    if txt == "-> bool":
+        return "B"
+    if txt == "-> Option < ( & I , & P ) >":
+        return "E"
+    if txt == "-> Option < ( & mut I , & P ) >":
+        return "EM"
     if txt == "-> Option < ( I , P ) >":
         return "E"
     if txt == "-> Option < ( I , P , Position ) >":
@@ -1463,6 +1893,19 @@ def param_binding(lw, name, ty):
     if ty == "& P":
         v = lw.fresh(name, "P")
         return ("P", v), ("p", v)
+    if ty == "P":
+        v = lw.fresh(name, "P")
+        return ("P", v), ("p", v)
+    if ty == "I":
+        v = lw.fresh(name, "I")
+        return ("I", v), ("v", v)
+    if ty == "& mut Self" and lw.owner == "store":
+        v = lw.fresh(name, "V")
+        lw.other_reg = v
+        return ("other", v), ("v", v)
+    if ty == "F":                                    # a user closure (predicate or setter): opaque, in a value register
+        v = lw.fresh(name, "V")
+        return ("V", v), ("v", v)
     if ty == "& IndexMap < I , P , H >":
         return ("place", "MAP"), None
     if ty == "& mut Hole":
@@ -1483,16 +1926,22 @@ def lower_function(fnid, file, rust, owner, sites, sources):
         raise Unparsed("expected exactly one `fn %s` in %s, found %d" % (rust, file, len(fs)))
     params, rtoks, btoks = fs[0]
     lw = Lower(fnid, owner, sites, sources)
-    nparams, pparams = [], []
+    nparams, pparams, vparams = [], [], []
     for name, ty in params:
         b, reg = param_binding(lw, name, ty)
         lw.scopes[0][name] = b
         if reg and reg[0] == "nn":
             nparams += list(reg[1])
         elif reg:
-            (nparams if reg[0] == "n" else pparams).append(reg[1])
+            {"n": nparams, "p": pparams, "v": vparams}[reg[0]].append(reg[1])
     rk = ret_kind(rtoks)
+    lw.ret_kind = rk
     body = lw.block_stmts(parse_fn_body(btoks), rk)
+    if lw.other_reg is not None:
+        # an `other: &mut Self` parameter: the IR function hands back the second store
+        if rk is not None:
+            raise Unparsed("function with an `other: &mut Self` parameter and a result")
+        body = body + [("retV", lw.other_reg)]
     if lw.byref_hole is not None:
         # a `&mut Hole` parameter: the IR function returns the hole's final position
         if rk is not None:
@@ -1500,7 +1949,7 @@ def lower_function(fnid, file, rust, owner, sites, sources):
         body = body + [("retN", ("var", lw.byref_hole))]
     if lw.site_i != len(sites):
         raise Unparsed("fewer fault-carrying accesses (%d) than the site table of %s lists (%d)" % (lw.site_i, fnid, len(sites)))
-    return {"nparams": nparams, "pparams": pparams, "body": body, "loops": lw.loops, "vars": lw.vars}
+    return {"nparams": nparams, "pparams": pparams, "vparams": vparams, "body": body, "loops": lw.loops, "vars": lw.vars}
 
 
 # ----------------------------------------------------------------------------------------------------
@@ -1512,6 +1961,8 @@ def pn(x):
     if t == "lit": return "(.lit %d)" % x[1]
     if t == "var": return "(.var %d)" % x[1]
     if t == "len": return ".len"
+    if t == "mapLen": return ".mapLen"
+    if t in ("otherSize", "entriesLen"): return "(.%s %d)" % (t, x[1])
     if t in ("add", "mul", "div", "mod"): return "(.%s %s %s)" % (t, pn(x[1]), pn(x[2]))
     if t == "sub": return "(.sub %d %s %s)" % (x[1], pn(x[2]), pn(x[3]))
     if t in ("left", "right", "level"): return "(.%s %s)" % (t, pn(x[1]))
@@ -1541,6 +1992,11 @@ def pb(x):
     if t in ("ltN", "leN", "gtN", "geN", "eqN", "neN"): return "(.%s %s %s)" % (t, pn(x[1]), pn(x[2]))
     if t in ("ltP", "gtP"): return "(.%s %s %s)" % (t, pp(x[1]), pp(x[2]))
     if t == "and": return "(.and %s %s)" % (pb(x[1]), pb(x[2]))
+    if t == "not": return "(.not %s)" % pb(x[1])
+    if t in ("prioMapOrGt", "prioMapOrLt"): return "(.%s %d %s)" % (t, x[1], pp(x[2]))
+    if t == "containsKey": return "(.containsKey %d)" % x[1]
+    if t == "predAt": return "(.predAt %d %d)" % (x[1], x[2])
+    if t == "isSomeV": return "(.isSomeV %d)" % x[1]
     raise AssertionError(t)
 
 
@@ -1575,6 +2031,32 @@ def pstmt(s, ind):
     if t in ("firstMinBy", "lastMaxBy"): return pad + "(.%s %d %d %d %s)" % (t, s[1], s[2], s[3], pns(s[4]))
     if t == "lastMaxByPos": return pad + "(.lastMaxByPos %d %d %s)" % (s[1], s[2], pns(s[3]))
     if t == "retSomeN": return pad + "(.retSomeN %s)" % pn(s[1])
+    if t in ("heapClear", "qpClear", "mapClear", "retMapDrain", "retNonePN", "sizeInc", "retNoneP", "retNoneSlot"):
+        return pad + "." + t
+    if t == "callX":
+        return pad + "(.callX %d .%s %s %s %s)" % (s[1], s[2], pns(s[3]), pps(s[4]), json.dumps(s[5]))
+    if t in ("retMapGetIndex", "retMapGetIndexMut2"): return pad + "(.%s %s)" % (t, pn(s[1]))
+    if t == "setVNoneP": return pad + "(.setVNoneP %d)" % s[1]
+    if t == "entryMatch":
+        return pad + "(.entryMatch %d %d\n%s\n%s)" % (s[1], s[2], pstmts(s[3], ind + 2), pstmts(s[4], ind + 2))
+    if t == "replaceSlotPrio": return pad + "(.replaceSlotPrio %d %s %s)" % (s[1], pn(s[2]), pp(s[3]))
+    if t == "vacantInsert": return pad + "(.vacantInsert %d %s)" % (s[1], pp(s[2]))
+    if t == "retSomeP": return pad + "(.retSomeP %s)" % pp(s[1])
+    if t == "mapChanged": return pad + "(.mapChanged %d %s %d\n%s)" % (s[1], pp(s[2]), s[3], pstmts(s[4], ind + 2))
+    if t == "mapChangedBy": return pad + "(.mapChangedBy %d %d %d\n%s)" % (s[1], s[2], s[3], pstmts(s[4], ind + 2))
+    if t == "swapSelfOther": return pad + "(.swapSelfOther %d)" % s[1]
+    if t == "drainOther": return pad + "(.drainOther %d %d)" % (s[1], s[2])
+    if t == "forEntries": return pad + "(.forEntries %d %d %d\n%s)" % (s[1], s[2], s[3], pstmts(s[4], ind + 2))
+    if t == "mapInsert": return pad + "(.mapInsert %d %s)" % (s[1], pp(s[2]))
+    if t in ("heapPush", "qpPush"): return pad + "(.%s %s)" % (t, pn(s[1]))
+    if t in ("sizeSet", "heapSetRange", "qpSetRange"): return pad + "(.%s %s)" % (t, pn(s[1]))
+    if t == "mapRetain2": return pad + "(.mapRetain2 %d)" % s[1]
+    if t == "entryMut2": return pad + "(.entryMut2 %d %s)" % (s[1], pn(s[2]))
+    if t == "swapSlotPrio": return pad + "(.swapSlotPrio %s %d)" % (pn(s[1]), s[2])
+    if t == "applySetterSlot": return pad + "(.applySetterSlot %d %s)" % (s[1], pn(s[2]))
+    if t == "retSomePN": return pad + "(.retSomePN %s %s)" % (pp(s[1]), pn(s[2]))
+    if t == "getFullMutThen":
+        return pad + "(.getFullMutThen %d %d\n%s\n%s)" % (s[1], s[2], pstmts(s[3], ind + 2), pstmts(s[4], ind + 2))
     if t == "callV": return pad + "(.callV %d .%s %s)" % (s[1], s[2], pns(s[3]))
     if t == "retV": return pad + "(.retV %d)" % s[1]
     if t == "retNoneE": return pad + ".retNoneE"
@@ -1606,7 +2088,7 @@ def emit(results, unparsed):
     for fnid in ALL_FNIDS:
         if fnid in results:
             r = results[fnid]
-            names = ", ".join("%d=%s%s" % (i, nm, {"N": "", "P": ":P", "K": ":key", "V": ":value"}[k]) for i, (nm, k) in enumerate(r["vars"]))
+            names = ", ".join("%d=%s%s" % (i, nm, {"N": "", "P": ":P", "K": ":key", "V": ":value"}.get(k, ":" + k)) for i, (nm, k) in enumerate(r["vars"]))
             L.append("/-! `%s`: registers %s -/" % (fnid, names or "(none)"))
             for name, c, body in r["loops"]:
                 L.append("def %s_cond : BExpr :=\n  %s" % (name, pb(c)))
@@ -1636,8 +2118,9 @@ def emit(results, unparsed):
             else:
                 L.append("def %s_body : Stmt :=\n%s" % (fnid, pstmts(r["body"], 2)))
             L.append("")
-            L.append("def %s : Option Fn :=\n  some { nparams := %s, pparams := %s, body := %s_body }"
-                     % (fnid, json.dumps(r["nparams"]), json.dumps(r["pparams"]), fnid))
+            vp = (", vparams := %s" % json.dumps(r["vparams"])) if r.get("vparams") else ""
+            L.append("def %s : Option Fn :=\n  some { nparams := %s, pparams := %s, body := %s_body%s }"
+                     % (fnid, json.dumps(r["nparams"]), json.dumps(r["pparams"]), fnid, vp))
         else:
             why = unparsed.get(fnid, "not translated (later phase)")
             L.append("/-- `%s`: %s -/" % (fnid, why.replace("-/", "- /")))
